@@ -1,31 +1,39 @@
 (** What Metadata/Signers.v ASSUMES about x/authz, made explicit (property C10).
 
     Metadata/Signers.v treats authz as a fixed relation [e_grants] that lookups do not change.
-    That is true of GenericAuthorization only.  This file transcribes the one place where the
-    metadata keeper touches authz,
+    That is true of unexpired GenericAuthorizations only.  This file transcribes the one place
+    where the metadata keeper touches authz,
 
       x/metadata/keeper/signers.go   findAuthzGrantee (loop over grantees, then over
                                      getAuthzMessageTypeURLs; AuthzCache hit; GetAuthorization;
-                                     Accept; DeleteGrant / SaveGrant; SetAcceptable)
+                                     Accept; DeleteGrant / SaveGrant with the grant's expiration;
+                                     SetAcceptable; an error of DeleteGrant / SaveGrant aborts)
       x/authz (forked SDK)           GenericAuthorization.Accept (always, no update),
                                      CountAuthorization.Accept (error when <= 0; Delete when 1;
-                                     otherwise Updated with one use less)
+                                     otherwise Updated with one use less),
+                                     Keeper.GetAuthorization (nothing when the grant's expiration is
+                                     BEFORE the block time: a grant is still live at the very second
+                                     it expires), Keeper.SaveGrant / NewGrant (error unless the
+                                     expiration is AFTER the block time)
       x/metadata/types/signer_utils.go  AuthzCache (one per message: AddAuthzCacheToContext clears it)
 
-    over a store in which an authorization may be count-limited, so that the assumption can be
-    STATED as a theorem (Proofs/AuthzCountProofs.v): on a store of generic authorizations the
-    lookup returns exactly [find_grantee] of the erased relation and leaves the store unchanged;
-    with one count-limited authorization neither holds.
+    over a store in which an authorization may be count-limited and may expire, so that the
+    assumption can be STATED as a theorem (Proofs/AuthzCountProofs.v): on a store of generic
+    authorizations the lookup returns exactly [find_grantee] of the relation of the grants that are
+    live at the block time and leaves the store unchanged; with one count-limited authorization
+    neither holds.
 
     External: the authz store holds at most one authorization per (grantee, granter, message type)
-    (its key); expiry is not modelled (unexpired).  No proofs in this file. *)
+    (its key); times are seconds; the authz BeginBlocker that prunes expired grants is not
+    modelled (GetAuthorization ignores them anyway).  No proofs in this file. *)
 From Coq Require Import ZArith List Bool.
 From PV Require Import Metadata.Signers.
 Import ListNotations.
 Open Scope Z_scope.
 
-(** [cg_left = None]: GenericAuthorization; [Some n]: CountAuthorization, n uses left. *)
-Record cgrant := { cg_granter : Z; cg_grantee : Z; cg_kind : Z; cg_left : option Z }.
+(** [cg_left = None]: GenericAuthorization; [Some n]: CountAuthorization, n uses left.
+    [cg_exp = None]: no expiration. *)
+Record cgrant := { cg_granter : Z; cg_grantee : Z; cg_kind : Z; cg_left : option Z; cg_exp : option Z }.
 Definition cstore := list cgrant.
 (** AuthzCache.acceptable: (grantee, granter, kind) accepted earlier while handling this message *)
 Definition ccache := list (Z * Z * Z).
@@ -33,80 +41,127 @@ Definition ccache := list (Z * Z * Z).
 Definition cg_is (granter grantee kind : Z) (g : cgrant) : bool :=
   Z.eqb (cg_granter g) granter && Z.eqb (cg_grantee g) grantee && Z.eqb (cg_kind g) kind.
 
+(** GetAuthorization returns the grant: not expired before [now] *)
+Definition live (now : Z) (g : cgrant) : bool :=
+  match cg_exp g with None => true | Some x => Z.leb now x end.
+(** NewGrant accepts the expiration: none, or after [now] *)
+Definition save_ok (now : Z) (exp : option Z) : bool :=
+  match exp with None => true | Some x => Z.ltb now x end.
+
+Definition cg_live_is (now granter grantee kind : Z) (g : cgrant) : bool :=
+  cg_is granter grantee kind g && live now g.
+
 Definition cache_has (c : ccache) (grantee granter kind : Z) : bool :=
   existsb (fun t => Z.eqb (fst (fst t)) grantee && Z.eqb (snd (fst t)) granter && Z.eqb (snd t) kind) c.
 
-(** Authorization.Accept: [None] = error / not accepted; [Some None] = accepted, delete the grant;
-    [Some (Some g')] = accepted, store [g'] (the same grant for a generic authorization: the keeper
-    saves nothing then). *)
-Definition accept (g : cgrant) : option (option cgrant) :=
+(** Authorization.Accept *)
+Inductive accepted :=
+| ANo                      (* error: ignored, the next message type is tried *)
+| AKeep                    (* accepted, nothing to store (generic) *)
+| ADelete                  (* accepted, the grant is used up *)
+| AUpdate (g' : cgrant).   (* accepted, store g' under the same expiration *)
+
+Definition accept (g : cgrant) : accepted :=
   match cg_left g with
-  | None => Some (Some g)
+  | None => AKeep
   | Some n =>
-      if Z.leb n 0 then None
-      else if Z.eqb n 1 then Some None
-      else Some (Some {| cg_granter := cg_granter g; cg_grantee := cg_grantee g;
-                         cg_kind := cg_kind g; cg_left := Some (n - 1) |})
+      if Z.leb n 0 then ANo
+      else if Z.eqb n 1 then ADelete
+      else AUpdate {| cg_granter := cg_granter g; cg_grantee := cg_grantee g;
+                      cg_kind := cg_kind g; cg_left := Some (n - 1); cg_exp := cg_exp g |}
   end.
 
-(** the first authorization stored under the key, replaced / removed *)
-Fixpoint st_update (st : cstore) (granter grantee kind : Z) (new : option cgrant) : cstore :=
+(** the first authorization satisfying [P], replaced / removed *)
+Fixpoint st_update (P : cgrant -> bool) (st : cstore) (new : option cgrant) : cstore :=
   match st with
   | [] => []
   | g :: t =>
-      if cg_is granter grantee kind g
-      then match new with Some g' => g' :: t | None => t end
-      else g :: st_update t granter grantee kind new
+      if P g then match new with Some g' => g' :: t | None => t end
+      else g :: st_update P t new
   end.
 
-(** inner loop of findAuthzGrantee: the message type URLs for one grantee.
-    [Some (st', c')]: this grantee is returned. *)
-Fixpoint try_kinds (st : cstore) (c : ccache) (granter grantee : Z) (kinds : list Z)
-  : option (cstore * ccache) :=
+Inductive lookup :=
+| LNone                               (* this grantee holds nothing usable *)
+| LFound (st : cstore) (c : ccache)   (* this grantee is returned *)
+| LErr.                               (* DeleteGrant / SaveGrant failed: findAuthzGrantee errors *)
+
+(** inner loop of findAuthzGrantee: the message type URLs for one grantee. *)
+Fixpoint try_kinds (now : Z) (st : cstore) (c : ccache) (granter grantee : Z) (kinds : list Z)
+  : lookup :=
   match kinds with
-  | [] => None
+  | [] => LNone
   | k :: rest =>
-      if cache_has c grantee granter k then Some (st, c)
-      else match find (cg_is granter grantee k) st with
+      if cache_has c grantee granter k then LFound st c
+      else match find (cg_live_is now granter grantee k) st with
            | Some g =>
                match accept g with
-               | Some new => Some (st_update st granter grantee k new, (grantee, granter, k) :: c)
-               | None => try_kinds st c granter grantee rest
+               | ANo => try_kinds now st c granter grantee rest
+               | AKeep => LFound st ((grantee, granter, k) :: c)
+               | ADelete =>
+                   LFound (st_update (cg_live_is now granter grantee k) st None) ((grantee, granter, k) :: c)
+               | AUpdate g' =>
+                   if save_ok now (cg_exp g)
+                   then LFound (st_update (cg_live_is now granter grantee k) st (Some g'))
+                               ((grantee, granter, k) :: c)
+                   else LErr
                end
-           | None => try_kinds st c granter grantee rest
+           | None => try_kinds now st c granter grantee rest
            end
   end.
 
+Inductive result :=
+| RNone (st : cstore) (c : ccache)
+| RFound (g : Z) (st : cstore) (c : ccache)
+| RErr.
+
 (** findAuthzGrantee *)
-Fixpoint find_grantee_c (st : cstore) (c : ccache) (granter : Z) (grantees kinds : list Z)
-  : option Z * cstore * ccache :=
+Fixpoint find_grantee_c (now : Z) (st : cstore) (c : ccache) (granter : Z) (grantees kinds : list Z)
+  : result :=
   match grantees with
-  | [] => (None, st, c)
+  | [] => RNone st c
   | g :: rest =>
-      match try_kinds st c granter g kinds with
-      | Some (st', c') => (Some g, st', c')
-      | None => find_grantee_c st c granter rest kinds
+      match try_kinds now st c granter g kinds with
+      | LFound st' c' => RFound g st' c'
+      | LErr => RErr
+      | LNone => find_grantee_c now st c granter rest kinds
       end
   end.
 
-(** The relation Metadata/Signers.v works with: the store with the counts forgotten. *)
-Definition raw_of (st : cstore) : list (Z * Z * Z) :=
-  map (fun g => (cg_granter g, cg_grantee g, cg_kind g)) st.
+(** The relation Metadata/Signers.v works with: the grants live at [now], counts forgotten. *)
+Definition raw_of (now : Z) (st : cstore) : list (Z * Z * Z) :=
+  map (fun g => (cg_granter g, cg_grantee g, cg_kind g)) (filter (live now) st).
 Definition all_generic (st : cstore) : Prop := forall g, In g st -> cg_left g = None.
 
-(** One message whose only requirement is the signature of [granter], who does not sign
-    (validateAllRequiredSigned with one required address): accepted exactly when a grantee is found
-    among the signers; every message starts with an empty cache. *)
-Definition one_message (st : cstore) (granter : Z) (signers : list Z) (m : Z) : bool * cstore :=
+(** One message at block time [now] whose only requirement is the signature of [granter], who does
+    not sign (validateAllRequiredSigned with one required address): accepted exactly when a grantee
+    is found among the signers; every message starts with an empty cache; an error rejects the
+    message and leaves the store as it was. *)
+Definition one_message (now : Z) (st : cstore) (granter : Z) (signers : list Z) (m : Z) : bool * cstore :=
   if mem granter signers then (true, st)
-  else match find_grantee_c st [] granter signers (authz_urls m) with
-       | (Some _, st', _) => (true, st')
-       | (None, st', _) => (false, st')
+  else match find_grantee_c now st [] granter signers (authz_urls m) with
+       | RFound _ st' _ => (true, st')
+       | RNone st' _ => (false, st')
+       | RErr => (false, st)
        end.
 
-Fixpoint messages (k : nat) (st : cstore) (granter : Z) (signers : list Z) (m : Z) : list bool :=
-  match k with
-  | O => []
-  | S k' => let '(b, st') := one_message st granter signers m in
-            b :: messages k' st' granter signers m
+(** what GetAuthorization (asked at a time before every expiration) reports for the key of [g0]:
+    -1 nothing stored, 0 stored without expiration, x stored with expiration x *)
+Definition exp_view (st : cstore) (g0 : cgrant) : Z :=
+  match find (cg_is (cg_granter g0) (cg_grantee g0) (cg_kind g0)) st with
+  | None => -1
+  | Some g => match cg_exp g with None => 0 | Some x => x end
   end.
+
+(** a sequence of identical messages at the given block times: accepted?, and the expirations of
+    the originally stored keys after each *)
+Fixpoint messages_obs (orig : cstore) (times : list Z) (st : cstore) (granter : Z) (signers : list Z) (m : Z)
+  : list (bool * list Z) :=
+  match times with
+  | [] => []
+  | now :: rest =>
+      let '(b, st') := one_message now st granter signers m in
+      (b, map (exp_view st') orig) :: messages_obs orig rest st' granter signers m
+  end.
+
+Definition messages (times : list Z) (st : cstore) (granter : Z) (signers : list Z) (m : Z) : list bool :=
+  map fst (messages_obs [] times st granter signers m).
